@@ -43,7 +43,7 @@ Fixpoint bsearch (fuel : nat) (x : K) (mn mx : Z) : option Z :=
 Inductive lookup := Outside | Found (c : Z) | NoFuel.
 
 Definition search_dim (fuel : nat) (order naxes : Z) (x : K) : lookup :=
-  if leb x (kn 0) || gtb x (kn (nknots - 1)) then Outside
+  if negb (gtb x (kn 0) && leb x (kn (nknots - 1))) then Outside
   else if ltb x (kn order) then Found order
   else if geb x (kn naxes) then Found (naxes - 1)
   else match bsearch fuel x order (nknots - 2) with
